@@ -56,13 +56,16 @@ def init_value(unit, table, i):
 
 
 def make_context(spec):
-    """spec = {"single": bool, "units": [ids], "size": n}; zero_mode so wire address = cell index"""
+    """spec = {"single": bool, "units": [ids], "size": n, "base": first block address (default 0),
+    "zero_mode": bool (default True: wire address = block address; False: block address = wire + 1)}"""
     from pymodbus.datastore import ModbusSequentialDataBlock, ModbusSlaveContext, ModbusServerContext
     n = spec.get("size", 16)
+    base = spec.get("base", 0)
 
     def slave(u):
-        blocks = {t: ModbusSequentialDataBlock(0, [init_value(u, t, i) for i in range(n)]) for t in TABLES}
-        return ModbusSlaveContext(di=blocks["di"], co=blocks["co"], hr=blocks["hr"], ir=blocks["ir"], zero_mode=True)
+        blocks = {t: ModbusSequentialDataBlock(base, [init_value(u, t, i) for i in range(n)]) for t in TABLES}
+        return ModbusSlaveContext(di=blocks["di"], co=blocks["co"], hr=blocks["hr"], ir=blocks["ir"],
+                                  zero_mode=spec.get("zero_mode", True))
     if spec["single"]:
         return ModbusServerContext(slaves=slave(0), single=True)
     return ModbusServerContext(slaves={u: slave(u) for u in spec["units"]}, single=False)
@@ -106,13 +109,20 @@ class Rec:
         self.resets_at_exit = None
 
 
-def diff_cells(before, after):
+def diff_cells(before, after, base=0):
+    """changed cells as (unit, table, BLOCK address, old, new); -1 = the cell does not exist (a table
+    that grew or shrank is reported cell by cell)"""
     out = []
     for u in sorted(before):
         for ti, t in enumerate(("co", "hr", "di", "ir")):
-            for a, (x, y) in enumerate(zip(before[u][t], after[u][t])):
+            b, a = before[u][t], after[u][t]
+            if b is a or b == a:
+                continue
+            for i in range(max(len(b), len(a))):
+                x = b[i] if i < len(b) else -1
+                y = a[i] if i < len(a) else -1
                 if x != y:
-                    out.append((u, ti, a, x, y))
+                    out.append((u, ti, base + i, x, y))
     return out
 
 
@@ -135,7 +145,7 @@ def instrument(framer, rec, run=None):
                 raise
             finally:
                 if run is not None:
-                    run.cells += diff_cells(before, run._dump())
+                    run.cells += diff_cells(before, run._dump(), run.base)
                     run.executed.append((getattr(req, "function_code", None), getattr(req, "unit_id", None)))
         units = args.get("unit", "MISSING")
         rec.pip_calls.append((list(units) if isinstance(units, (list, tuple)) else units,
@@ -341,6 +351,7 @@ class Run:
         self.fe, self.framer_name, self.cfg = fe, framer_name, dict(cfg or {})
         self.control = reset_control()
         self.ctx = make_context(ctxspec)
+        self.base = ctxspec.get("base", 0)
         self.fcls = framer_class(framer_name)
         self.conns = {}
         self.cells = []         # (unit, table 0=co 1=hr 2=di 3=ir, address, old, new) per executed request, in order
